@@ -59,6 +59,13 @@ package gateway
 //@   nopanic [C25]
 //@   requires [C25] inv: hInv(h)
 //@   requires [C25] pkt: snPublish != nil
+//@   requires [C25] tx: txWF(h)
+//@   at Store.0 before assert [C25] new_entry_wf: txEntryWF(h, arg(2))
+//@   ensures [C25] keeps_tx_new: (snPublish.messageID in h.transactions.bypktID) ==> txEntryWF(h, h.transactions.bypktID[snPublish.messageID])
+//@   ensures [C25] keeps_tx_old: forall k uint16 :: k != snPublish.messageID && (k in h.transactions.bypktID) ==> txEntryWF(h, h.transactions.bypktID[k])
+//@   ensures [C25] keeps_tx: txWF(h)
+//@   ensures [C25] keeps_inv: hInv(h)
+//@   ensures [C25] state_same: state(h) == old(state(h))
 //@   assigns h.mqttOutN, h.mqttOut, map(h.transactions.bypktID)
 //@   let n0 = old(h.mqttOutN)
 //@   let tit = snPublish.TopicIDType
@@ -166,7 +173,8 @@ package gateway
 // connect exchange (CONNECT, AUTH, WILLTOPIC, WILLMSG), a DISCONNECT, and -- with
 // authentication disabled -- a QoS -1 PUBLISH on a short or predefined topic are let through.
 //@ spec legalWhenDisconnected(h *handler1, pkt iface) bool = istype(pkt, *snPkts1.Connect) || istype(pkt, *snPkts1.Auth) ||
-//@      istype(pkt, *snPkts1.WillMsg) || istype(pkt, *snPkts1.WillTopic) || istype(pkt, *snPkts1.Disconnect) ||
+//@      istype(pkt, *snPkts1.WillMsg) || istype(pkt, *snPkts1.WillTopic) ||
+//@      (istype(pkt, *snPkts1.Disconnect) && pkt.(*snPkts1.Disconnect).Duration == 0) ||
 //@      (istype(pkt, *snPkts1.Publish) && !h.cfg.AuthEnabled && pkt.(*snPkts1.Publish).QOS == 3 &&
 //@         (pkt.(*snPkts1.Publish).TopicIDType == 2 || pkt.(*snPkts1.Publish).TopicIDType == 1))
 
@@ -258,7 +266,7 @@ package gateway
 //@      closed(t.TimedTransaction.TransactionBase.done), calls(t.TimedTransaction.TransactionBase.finally)
 //@   at DecodePlain.0 after let user = retn(0)
 //@   at DecodePlain.0 after let pass = retn(1)
-//@   ensures [C08] keeps: result == nil ==> ctInv(t)
+//@   ensures [C08] keeps: ctInv(t)
 //@   ensures [C08] ignored_unless_awaited: old(t.state) != 0 ==> result == nil && h.mqttOutN == old(h.mqttOutN) && h.snOutN == old(h.snOutN) &&
 //@      t.state == old(t.state) && t.mqConnect.Username == old(t.mqConnect.Username) && sameSlice(t.mqConnect.Password, old(t.mqConnect.Password)) &&
 //@      t.mqConnect.UsernameFlag == old(t.mqConnect.UsernameFlag) && t.mqConnect.PasswordFlag == old(t.mqConnect.PasswordFlag)
@@ -286,6 +294,7 @@ package gateway
 //@      (old(state(h)) != 2 && result == nil ==> h.snOutN == old(h.snOutN) + 1 && istype(h.snOut[old(h.snOutN)], *snPkts1.WillMsgReq))
 //@   ensures [C09,C24] empty_topic_means_no_will: old(t.state) == 1 && len(snWillTopic.WillTopic) == 0 ==> t.state == 3 && !t.mqConnect.WillFlag &&
 //@      h.snOutN == old(h.snOutN) && (h.mqttOutN == old(h.mqttOutN) || h.mqttOutN == old(h.mqttOutN) + 1)
+//@   ensures [C09] only_the_connect: h.mqttOutN == old(h.mqttOutN) + 1 ==> h.mqttOut[old(h.mqttOutN)] == box(*mqPkts.ConnectPacket, t.mqConnect)
 //@   ensures [C09] at_most_one_each: (h.mqttOutN == old(h.mqttOutN) || h.mqttOutN == old(h.mqttOutN) + 1) && (h.snOutN == old(h.snOutN) || h.snOutN == old(h.snOutN) + 1)
 
 //@ func (*connectTransaction).WillMsg
@@ -321,6 +330,7 @@ package gateway
 //@ func (*handler1).handleConnect
 //@   nopanic [C25]
 //@   requires [C25] inv: hInv(h) && h.group != nil && snConnect != nil
+//@   requires [C25] tx: txWF(h)
 //@   assigns *
 //@   at snSend.1 after let afterConnack = h.snOutN
 //@   loop 0 invariant [C11] awake: state(h) == 1 && h.snConn != nil && h.state != nil && rangeindex >= -1 && rangeindex < len(old(h.pktBuffer))
@@ -333,6 +343,11 @@ package gateway
 //@   ensures [C25] keeps_reg: regTypes(h) && boundOnce(h)
 //@   ensures [C25] keeps_buf: bufWF(h)
 //@   ensures [C25] keeps_conn: connTx(h)
+//@   ensures [C25] keeps_tx_old: forall k uint16 :: (k in h.transactions.bypktID) ==> txEntryWF(h, h.transactions.bypktID[k])
+//@   ensures [C25] keeps_tx: txWF(h)
+//@   ensures [C04] registrations_untouched: forall k iface :: (k in h.registeredTopics) == old(k in h.registeredTopics) &&
+//@      smGet(h.registeredTopics, k) == old(smGet(h.registeredTopics, k))
+//@   ensures [C14] only_a_connect_goes_to_the_broker: h.mqttOutN == old(h.mqttOutN) + 1 ==> istype(h.mqttOut[old(h.mqttOutN)], *mqPkts.ConnectPacket)
 //@   ensures [C07] no_activation_without_broker: old(state(h)) == 0 ==> state(h) == 0
 //@   ensures [C07,C11] sleeping_client_becomes_active: (old(state(h)) == 2 || old(state(h)) == 3) && snConnect.ProtocolID == 1 ==>
 //@      h.mqttOutN == old(h.mqttOutN) && (result == nil ==> state(h) == 1 && len(h.pktBuffer) == 0)
@@ -342,3 +357,298 @@ package gateway
 //@   ensures [C09] wrong_protocol_refused: snConnect.ProtocolID != 1 ==> h.mqttOutN == old(h.mqttOutN) && state(h) == old(state(h))
 //@   ensures [C09] at_most_one_connect: h.mqttOutN == old(h.mqttOutN) || h.mqttOutN == old(h.mqttOutN) + 1
 //@   ensures [C08] auth_enabled_sends_nothing_yet: h.cfg.AuthEnabled ==> h.mqttOutN == old(h.mqttOutN)
+
+// ---- transactions kept in the store (I-TX): every stored transaction is a well-formed transaction of this handler ----
+//@ opaque pred txEntryWF(h *handler1, v iface) = v != nil &&
+//@      (istype(v, *subscribeTransaction) ==> v.(*subscribeTransaction).handler == h && timedWF(v.(*subscribeTransaction).TimedTransaction)) &&
+//@      (istype(v, *clientPublishQOS1Transaction) ==> v.(*clientPublishQOS1Transaction).handler == h && timedWF(v.(*clientPublishQOS1Transaction).TimedTransaction)) &&
+//@      (istype(v, *brokerPublishQOS2Transaction) ==> v.(*brokerPublishQOS2Transaction).handler == h) &&
+//@      (istype(v, *brokerPublishQOS1Transaction) ==> v.(*brokerPublishQOS1Transaction).handler == h) &&
+//@      (istype(v, *brokerPublishQOS0Transaction) ==> v.(*brokerPublishQOS0Transaction).handler == h)
+//@ pred txWF(h *handler1) = forall k uint16 :: (k in h.transactions.bypktID) ==> txEntryWF(h, h.transactions.bypktID[k])
+
+// ---- C03: SUBSCRIBE / SUBACK ----
+//@ func newSubscribeTransaction
+//@   nopanic [C25]
+//@   requires [C25] cfg: h != nil && h.cfg != nil
+//@   ensures [C03] made: fresh(result) && result.handler == h && result.topicID == topicID &&
+//@      timedWF(result.TimedTransaction) && fresh(result.TimedTransaction) && !finished(result.TimedTransaction.TransactionBase)
+
+//@ func (*subscribeTransaction).Suback
+//@   nopanic [C25]
+//@   requires [C25] wf: t.handler != nil && hLite(t.handler) && timedWF(t.TimedTransaction) && mqSuback != nil
+//@   requires [C23] queue_wf: bufWF(t.handler)
+//@   ensures [C23] keeps_queue_wf: bufWF(t.handler)
+//@   let h = t.handler
+//@   assigns h.snOutN, h.snOut, h.pktBuffer, armed(t.TimedTransaction.timer), t.TimedTransaction.TransactionBase.err,
+//@      closed(t.TimedTransaction.TransactionBase.done), calls(t.TimedTransaction.TransactionBase.finally)
+//@   ensures [C03] one_suback: (h.snOutN == old(h.snOutN) || h.snOutN == old(h.snOutN) + 1) &&
+//@      (old(state(h)) != 2 && result == nil ==> h.snOutN == old(h.snOutN) + 1)
+//@   ensures [C03] malformed_broker_suback: len(mqSuback.ReturnCodes) != 1 ==> result != nil && h.snOutN == old(h.snOutN)
+//@   ensures [C03] is_suback: h.snOutN == old(h.snOutN) + 1 ==> istype(h.snOut[old(h.snOutN)], *snPkts1.Suback)
+//@   ensures [C03] same_msgid: h.snOutN == old(h.snOutN) + 1 ==> h.snOut[old(h.snOutN)].(*snPkts1.Suback).messageID == mqSuback.MessageID
+//@   ensures [C03] assigned_topic_id: h.snOutN == old(h.snOutN) + 1 ==> h.snOut[old(h.snOutN)].(*snPkts1.Suback).TopicID == t.topicID
+//@   ensures [C03] accepted_iff_granted: h.snOutN == old(h.snOutN) + 1 ==>
+//@      ((h.snOut[old(h.snOutN)].(*snPkts1.Suback).ReturnCode == 0) == (mqSuback.ReturnCodes[0] <= 2))
+//@   ensures [C03] granted_qos: h.snOutN == old(h.snOutN) + 1 && mqSuback.ReturnCodes[0] <= 2 ==>
+//@      h.snOut[old(h.snOutN)].(*snPkts1.Suback).QOS == mqSuback.ReturnCodes[0]
+//@   ensures [C25] state_same: state(h) == old(state(h))
+
+//@ func (*clientPublishQOS1Transaction).Puback
+//@   nopanic [C25]
+//@   requires [C25] wf: t.handler != nil && hLite(t.handler) && timedWF(t.TimedTransaction) && mqPuback != nil
+//@   requires [C23] queue_wf: bufWF(t.handler)
+//@   ensures [C23] keeps_queue_wf: bufWF(t.handler)
+//@   let h = t.handler
+//@   assigns h.snOutN, h.snOut, h.pktBuffer, armed(t.TimedTransaction.timer),
+//@      closed(t.TimedTransaction.TransactionBase.done), calls(t.TimedTransaction.TransactionBase.finally)
+//@   ensures [C01] one_puback: (h.snOutN == old(h.snOutN) || h.snOutN == old(h.snOutN) + 1) &&
+//@      (old(state(h)) != 2 && result == nil ==> h.snOutN == old(h.snOutN) + 1)
+//@   ensures [C01] puback_fields: h.snOutN == old(h.snOutN) + 1 ==> istype(h.snOut[old(h.snOutN)], *snPkts1.Puback) &&
+//@      h.snOut[old(h.snOutN)].(*snPkts1.Puback).messageID == mqPuback.MessageID &&
+//@      h.snOut[old(h.snOutN)].(*snPkts1.Puback).TopicID == t.topicID && h.snOut[old(h.snOutN)].(*snPkts1.Puback).ReturnCode == 0
+//@   ensures [C25] state_same: state(h) == old(state(h))
+
+//@ inline hasWildcard
+
+//@ func (*handler1).handleSubscribe
+//@   nopanic [C25]
+//@   requires [C25] inv: hInv(h) && txWF(h) && snSubscribe != nil && snSubscribe.TopicIDType != 3
+//@   assigns *
+//@   at Store.1 before assert [C25] new_entry_wf: txEntryWF(h, arg(2))
+//@   let n0 = old(h.mqttOutN)
+//@   ensures [C25] keeps_basic: h.cfg != nil && h.state != nil && h.snConn != nil && h.mqttConn != nil && h.transactions != nil && state(h) <= 3
+//@   ensures [C25] keeps_store: storeInv(h.transactions)
+//@   ensures [C25] keeps_seq: topicSeq(h)
+//@   ensures [C25] keeps_reg: regTypes(h)
+//@   ensures [C25] keeps_bound: boundOnce(h)
+//@   ensures [C25] keeps_buf: bufWF(h)
+//@   ensures [C25] keeps_conn: connTx(h)
+//@   ensures [C25] keeps_tx_new: (snSubscribe.messageID in h.transactions.bypktID) ==> txEntryWF(h, h.transactions.bypktID[snSubscribe.messageID])
+//@   ensures [C25] keeps_tx_old: forall k uint16 :: k != snSubscribe.messageID && (k in h.transactions.bypktID) ==> txEntryWF(h, h.transactions.bypktID[k])
+//@   ensures [C25] keeps_tx: txWF(h)
+//@   ensures [C03] at_most_one: (h.mqttOutN == n0 || h.mqttOutN == n0 + 1) && (h.snOutN == old(h.snOutN) || h.snOutN == old(h.snOutN) + 1)
+//@   ensures [C03] one_to_one: result == nil ==> (h.mqttOutN == n0 + 1) != (h.snOutN == old(h.snOutN) + 1) || old(state(h)) == 2
+//@   ensures [C03] is_subscribe: h.mqttOutN == n0 + 1 ==> istype(h.mqttOut[n0], *mqPkts.SubscribePacket) && h.snOutN == old(h.snOutN)
+//@   ensures [C03] same_msgid: h.mqttOutN == n0 + 1 ==> h.mqttOut[n0].(*mqPkts.SubscribePacket).MessageID == snSubscribe.messageID
+//@   ensures [C03] requested_qos: h.mqttOutN == n0 + 1 ==> len(h.mqttOut[n0].(*mqPkts.SubscribePacket).Qoss) == 1 &&
+//@      h.mqttOut[n0].(*mqPkts.SubscribePacket).Qoss[0] == snSubscribe.QOS
+//@   ensures [C03] one_filter: h.mqttOutN == n0 + 1 ==> len(h.mqttOut[n0].(*mqPkts.SubscribePacket).Topics) == 1
+//@   ensures [C03] filter_string: h.mqttOutN == n0 + 1 && snSubscribe.TopicIDType == 0 ==>
+//@      h.mqttOut[n0].(*mqPkts.SubscribePacket).Topics[0] == snSubscribe.TopicName
+//@   ensures [C03] filter_predefined: h.mqttOutN == n0 + 1 && snSubscribe.TopicIDType == 1 ==>
+//@      old(nameDefined(h.predefinedTopics, h.clientID, snSubscribe.TopicID)) &&
+//@      h.mqttOut[n0].(*mqPkts.SubscribePacket).Topics[0] == old(nameSpec(h.predefinedTopics, h.clientID, snSubscribe.TopicID))
+//@   ensures [C03] filter_short: h.mqttOutN == n0 + 1 && snSubscribe.TopicIDType == 2 ==>
+//@      len(h.mqttOut[n0].(*mqPkts.SubscribePacket).Topics[0]) == 2 &&
+//@      h.mqttOut[n0].(*mqPkts.SubscribePacket).Topics[0][0] == uint8(snSubscribe.TopicID >> 8) &&
+//@      h.mqttOut[n0].(*mqPkts.SubscribePacket).Topics[0][1] == uint8(snSubscribe.TopicID)
+//@   ensures [C04] refused_when_exhausted: h.snOutN == old(h.snOutN) + 1 ==> h.mqttOutN == n0 &&
+//@      istype(h.snOut[old(h.snOutN)], *snPkts1.Suback) && h.snOut[old(h.snOutN)].(*snPkts1.Suback).ReturnCode != 0 &&
+//@      h.snOut[old(h.snOutN)].(*snPkts1.Suback).messageID == snSubscribe.messageID
+//@   ensures [C04] never_rebinds: forall k iface :: old(k in h.registeredTopics) ==> (k in h.registeredTopics) &&
+//@      smGet(h.registeredTopics, k) == old(smGet(h.registeredTopics, k))
+//@   ensures [C25] state_same: state(h) == old(state(h))
+
+//@ func (*handler1).handleUnsubscribe
+//@   nopanic [C25]
+//@   requires [C25] inv: hInv(h) && snUnsubscribe != nil && snUnsubscribe.TopicIDType != 3
+//@   assigns h.mqttOutN, h.mqttOut
+//@   let n0 = old(h.mqttOutN)
+//@   ensures [C03] at_most_one: h.mqttOutN == n0 || h.mqttOutN == n0 + 1
+//@   ensures [C03] one_on_success: result == nil ==> h.mqttOutN == n0 + 1
+//@   ensures [C03] is_unsubscribe: h.mqttOutN == n0 + 1 ==> istype(h.mqttOut[n0], *mqPkts.UnsubscribePacket) &&
+//@      h.mqttOut[n0].(*mqPkts.UnsubscribePacket).MessageID == snUnsubscribe.messageID &&
+//@      len(h.mqttOut[n0].(*mqPkts.UnsubscribePacket).Topics) == 1
+//@   ensures [C03] filter_string: h.mqttOutN == n0 + 1 && snUnsubscribe.TopicIDType == 0 ==>
+//@      h.mqttOut[n0].(*mqPkts.UnsubscribePacket).Topics[0] == snUnsubscribe.TopicName
+//@   ensures [C03] filter_predefined: h.mqttOutN == n0 + 1 && snUnsubscribe.TopicIDType == 1 ==>
+//@      h.mqttOut[n0].(*mqPkts.UnsubscribePacket).Topics[0] == nameSpec(h.predefinedTopics, h.clientID, snUnsubscribe.TopicID)
+
+// ---- broker-initiated PUBLISH flows (contracts assumed for now: bodies not yet under proof) ----
+//@ func (*handler1).handleBrokerPublish
+//@   trusted
+//@   requires [C25] inv: hInv(h) && txWF(h) && mqPublish != nil
+//@   assigns *
+//@   ensures [C25] keeps_inv: hInv(h) && txWF(h)
+//@   ensures [C25] state_same: state(h) == old(state(h))
+//@   ensures [C14] no_disconnect: (h.mqttOutN == old(h.mqttOutN) || h.mqttOutN == old(h.mqttOutN) + 1) &&
+//@      (h.mqttOutN == old(h.mqttOutN) + 1 ==> !istype(h.mqttOut[old(h.mqttOutN)], *mqPkts.DisconnectPacket))
+//@   ensures [C04] never_rebinds: forall k iface :: old(k in h.registeredTopics) ==> (k in h.registeredTopics) &&
+//@      smGet(h.registeredTopics, k) == old(smGet(h.registeredTopics, k))
+//@ func (*brokerPublishQOS2Transaction).Pubrel
+//@   trusted
+//@   requires [C25] wf: t.handler != nil && hInv(t.handler) && txWF(t.handler)
+//@   assigns *
+//@   ensures [C25] keeps: hInv(t.handler) && txWF(t.handler) && t.handler == old(t.handler) && state(t.handler) == old(state(t.handler))
+//@   ensures [C14] no_disconnect: (t.handler.mqttOutN == old(t.handler.mqttOutN) || t.handler.mqttOutN == old(t.handler.mqttOutN) + 1) &&
+//@      (t.handler.mqttOutN == old(t.handler.mqttOutN) + 1 ==> !istype(t.handler.mqttOut[old(t.handler.mqttOutN)], *mqPkts.DisconnectPacket))
+//@   ensures [C04] never_rebinds: forall k iface :: old(k in t.handler.registeredTopics) ==> (k in t.handler.registeredTopics) &&
+//@      smGet(t.handler.registeredTopics, k) == old(smGet(t.handler.registeredTopics, k))
+
+// ---- the step for a packet from the broker ----
+//@ spec snReply(h *handler1, n int) iface = h.snOut[n]
+//@ func (*handler1).handleMqtt
+//@   nopanic [C25]
+//@   requires [C25] inv: hInv(h) && txWF(h) && pkt != nil
+//@   assigns *
+//@   let s0 = old(h.snOutN)
+//@   let m0 = old(h.mqttOutN)
+//@   at Puback.0 before assert [C25] entry_wf: txEntryWF(h, box(*clientPublishQOS1Transaction, arg(0)))
+//@   at Suback.0 before assert [C25] entry_wf: txEntryWF(h, box(*subscribeTransaction, arg(0)))
+//@   at Pubrel.0 before assert [C25] entry_wf: txEntryWF(h, box(*brokerPublishQOS2Transaction, arg(0)))
+//@   ensures [C25] keeps_basic: h.cfg != nil && h.state != nil && h.snConn != nil && h.mqttConn != nil && h.transactions != nil && state(h) <= 3
+//@   ensures [C25] keeps_store: storeInv(h.transactions)
+//@   ensures [C25] keeps_seq: topicSeq(h)
+//@   ensures [C25] keeps_reg: regTypes(h)
+//@   ensures [C25] keeps_bound: boundOnce(h)
+//@   ensures [C25] keeps_buf: bufWF(h)
+//@   ensures [C25] keeps_conn: connTx(h)
+//@   ensures [C25] keeps_tx: txWF(h)
+//@   ensures [C03] pubrec_relayed: istype(pkt, *mqPkts.PubrecPacket) ==> h.mqttOutN == m0 && (h.snOutN == s0 || h.snOutN == s0 + 1) &&
+//@      (old(state(h)) != 2 && result == nil ==> h.snOutN == s0 + 1) &&
+//@      (h.snOutN == s0 + 1 ==> istype(h.snOut[s0], *snPkts1.Pubrec) && h.snOut[s0].(*snPkts1.Pubrec).messageID == pkt.(*mqPkts.PubrecPacket).MessageID)
+//@   ensures [C03] pubcomp_relayed: istype(pkt, *mqPkts.PubcompPacket) ==> h.mqttOutN == m0 && (h.snOutN == s0 || h.snOutN == s0 + 1) &&
+//@      (old(state(h)) != 2 && result == nil ==> h.snOutN == s0 + 1) &&
+//@      (h.snOutN == s0 + 1 ==> istype(h.snOut[s0], *snPkts1.Pubcomp) && h.snOut[s0].(*snPkts1.Pubcomp).messageID == pkt.(*mqPkts.PubcompPacket).MessageID)
+//@   ensures [C03] unsuback_relayed: istype(pkt, *mqPkts.UnsubackPacket) ==> h.mqttOutN == m0 && (h.snOutN == s0 || h.snOutN == s0 + 1) &&
+//@      (old(state(h)) != 2 && result == nil ==> h.snOutN == s0 + 1) &&
+//@      (h.snOutN == s0 + 1 ==> istype(h.snOut[s0], *snPkts1.Unsuback) && h.snOut[s0].(*snPkts1.Unsuback).messageID == pkt.(*mqPkts.UnsubackPacket).MessageID)
+//@   ensures [C03] pingresp_relayed_when_active: istype(pkt, *mqPkts.PingrespPacket) ==> h.mqttOutN == m0 &&
+//@      (old(state(h)) != 1 ==> h.snOutN == s0 && result == nil) &&
+//@      (old(state(h)) == 1 && result == nil ==> h.snOutN == s0 + 1 && istype(h.snOut[s0], *snPkts1.Pingresp))
+//@   ensures [C03] suback_needs_exchange: istype(pkt, *mqPkts.SubackPacket) ==> h.mqttOutN == m0 && (h.snOutN == s0 || h.snOutN == s0 + 1) &&
+//@      (h.snOutN == s0 + 1 ==> istype(h.snOut[s0], *snPkts1.Suback) && h.snOut[s0].(*snPkts1.Suback).messageID == pkt.(*mqPkts.SubackPacket).MessageID)
+//@   ensures [C07] activation_only_by_connack: state(h) != old(state(h)) ==> istype(pkt, *mqPkts.ConnackPacket) && state(h) == 1 &&
+//@      pkt.(*mqPkts.ConnackPacket).ReturnCode == 0
+//@   ensures [C14] no_packet_to_broker_except_publish_flows: !istype(pkt, *mqPkts.PublishPacket) && !istype(pkt, *mqPkts.PubrelPacket) ==> h.mqttOutN == m0
+
+// ---- sleep pinger (its timing is not decided by contracts; see C12 / C33 not applicable) ----
+//@ func (*handler1).startSleepPinger
+//@   nopanic [C25]
+//@   requires [C25] group: h.group != nil
+//@   ensures [C25] cancel: result != nil
+
+// ---- broker-initiated transactions answered by the client (contracts assumed for now) ----
+//@ func (*brokerPublishQOS0Transaction).Regack
+//@   trusted
+//@   requires [C25] wf: t.handler != nil && hInv(t.handler) && txWF(t.handler)
+//@   assigns *
+//@   ensures [C25] keeps: hInv(t.handler) && txWF(t.handler) && t.handler == old(t.handler) && state(t.handler) == old(state(t.handler))
+//@   ensures [C14] no_disconnect: (t.handler.mqttOutN == old(t.handler.mqttOutN) || t.handler.mqttOutN == old(t.handler.mqttOutN) + 1) &&
+//@      (t.handler.mqttOutN == old(t.handler.mqttOutN) + 1 ==> !istype(t.handler.mqttOut[old(t.handler.mqttOutN)], *mqPkts.DisconnectPacket))
+//@   ensures [C04] never_rebinds: forall k iface :: old(k in t.handler.registeredTopics) ==> (k in t.handler.registeredTopics) &&
+//@      smGet(t.handler.registeredTopics, k) == old(smGet(t.handler.registeredTopics, k))
+//@ func (*brokerPublishQOS1Transaction).Regack
+//@   trusted
+//@   requires [C25] wf: t.handler != nil && hInv(t.handler) && txWF(t.handler)
+//@   assigns *
+//@   ensures [C25] keeps: hInv(t.handler) && txWF(t.handler) && t.handler == old(t.handler) && state(t.handler) == old(state(t.handler))
+//@   ensures [C14] no_disconnect: (t.handler.mqttOutN == old(t.handler.mqttOutN) || t.handler.mqttOutN == old(t.handler.mqttOutN) + 1) &&
+//@      (t.handler.mqttOutN == old(t.handler.mqttOutN) + 1 ==> !istype(t.handler.mqttOut[old(t.handler.mqttOutN)], *mqPkts.DisconnectPacket))
+//@   ensures [C04] never_rebinds: forall k iface :: old(k in t.handler.registeredTopics) ==> (k in t.handler.registeredTopics) &&
+//@      smGet(t.handler.registeredTopics, k) == old(smGet(t.handler.registeredTopics, k))
+//@ func (*brokerPublishQOS2Transaction).Regack
+//@   trusted
+//@   requires [C25] wf: t.handler != nil && hInv(t.handler) && txWF(t.handler)
+//@   assigns *
+//@   ensures [C25] keeps: hInv(t.handler) && txWF(t.handler) && t.handler == old(t.handler) && state(t.handler) == old(state(t.handler))
+//@   ensures [C14] no_disconnect: (t.handler.mqttOutN == old(t.handler.mqttOutN) || t.handler.mqttOutN == old(t.handler.mqttOutN) + 1) &&
+//@      (t.handler.mqttOutN == old(t.handler.mqttOutN) + 1 ==> !istype(t.handler.mqttOut[old(t.handler.mqttOutN)], *mqPkts.DisconnectPacket))
+//@   ensures [C04] never_rebinds: forall k iface :: old(k in t.handler.registeredTopics) ==> (k in t.handler.registeredTopics) &&
+//@      smGet(t.handler.registeredTopics, k) == old(smGet(t.handler.registeredTopics, k))
+//@ func (*brokerPublishQOS1Transaction).Puback
+//@   trusted
+//@   requires [C25] wf: t.handler != nil && hInv(t.handler) && txWF(t.handler)
+//@   assigns *
+//@   ensures [C25] keeps: hInv(t.handler) && txWF(t.handler) && t.handler == old(t.handler) && state(t.handler) == old(state(t.handler))
+//@   ensures [C14] no_disconnect: (t.handler.mqttOutN == old(t.handler.mqttOutN) || t.handler.mqttOutN == old(t.handler.mqttOutN) + 1) &&
+//@      (t.handler.mqttOutN == old(t.handler.mqttOutN) + 1 ==> !istype(t.handler.mqttOut[old(t.handler.mqttOutN)], *mqPkts.DisconnectPacket))
+//@   ensures [C04] never_rebinds: forall k iface :: old(k in t.handler.registeredTopics) ==> (k in t.handler.registeredTopics) &&
+//@      smGet(t.handler.registeredTopics, k) == old(smGet(t.handler.registeredTopics, k))
+//@ func (*brokerPublishQOS2Transaction).Pubrec
+//@   trusted
+//@   requires [C25] wf: t.handler != nil && hInv(t.handler) && txWF(t.handler)
+//@   assigns *
+//@   ensures [C25] keeps: hInv(t.handler) && txWF(t.handler) && t.handler == old(t.handler) && state(t.handler) == old(state(t.handler))
+//@   ensures [C14] no_disconnect: (t.handler.mqttOutN == old(t.handler.mqttOutN) || t.handler.mqttOutN == old(t.handler.mqttOutN) + 1) &&
+//@      (t.handler.mqttOutN == old(t.handler.mqttOutN) + 1 ==> !istype(t.handler.mqttOut[old(t.handler.mqttOutN)], *mqPkts.DisconnectPacket))
+//@   ensures [C04] never_rebinds: forall k iface :: old(k in t.handler.registeredTopics) ==> (k in t.handler.registeredTopics) &&
+//@      smGet(t.handler.registeredTopics, k) == old(smGet(t.handler.registeredTopics, k))
+//@ func (*brokerPublishQOS2Transaction).Pubcomp
+//@   trusted
+//@   requires [C25] wf: t.handler != nil && hInv(t.handler) && txWF(t.handler)
+//@   assigns *
+//@   ensures [C25] keeps: hInv(t.handler) && txWF(t.handler) && t.handler == old(t.handler) && state(t.handler) == old(state(t.handler))
+//@   ensures [C14] no_disconnect: (t.handler.mqttOutN == old(t.handler.mqttOutN) || t.handler.mqttOutN == old(t.handler.mqttOutN) + 1) &&
+//@      (t.handler.mqttOutN == old(t.handler.mqttOutN) + 1 ==> !istype(t.handler.mqttOut[old(t.handler.mqttOutN)], *mqPkts.DisconnectPacket))
+//@   ensures [C04] never_rebinds: forall k iface :: old(k in t.handler.registeredTopics) ==> (k in t.handler.registeredTopics) &&
+//@      smGet(t.handler.registeredTopics, k) == old(smGet(t.handler.registeredTopics, k))
+
+// ---- the step for a packet from the client ----
+// decodable: facts every packet produced by the decoder satisfies (C22 postconditions of Unpack).
+//@ pred decodable(pkt iface) = pkt != nil && (istype(pkt, *snPkts1.Subscribe) ==> pkt.(*snPkts1.Subscribe).TopicIDType != 3) &&
+//@      (istype(pkt, *snPkts1.Unsubscribe) ==> pkt.(*snPkts1.Unsubscribe).TopicIDType != 3)
+
+//@ func (*handler1).handleMqttSn
+//@   nopanic [C25]
+//@   requires [C25] inv: hInv(h) && txWF(h) && h.group != nil && decodable(pkt)
+//@   assigns *
+//@   let s0 = old(h.snOutN)
+//@   let m0 = old(h.mqttOutN)
+//@   at Auth.0 before assert [C25] exchange_wf: ctInv(arg(0))
+//@   at WillTopic.0 before assert [C25] exchange_wf: ctInv(arg(0))
+//@   at WillMsg.0 before assert [C25] exchange_wf: ctInv(arg(0))
+//@   at Auth.0 before assert [C25] same_handler: arg(0).handler == h
+//@   at WillTopic.0 before assert [C25] same_handler: arg(0).handler == h
+//@   at WillMsg.0 before assert [C25] same_handler: arg(0).handler == h
+//@   at Regack.0 before assert [C25] entry_wf: txEntryWF(h, arg(0))
+//@   at Puback.0 before assert [C25] entry_wf: txEntryWF(h, box(*brokerPublishQOS1Transaction, arg(0)))
+//@   at Pubrec.0 before assert [C25] entry_wf: txEntryWF(h, box(*brokerPublishQOS2Transaction, arg(0)))
+//@   at Pubcomp.0 before assert [C25] entry_wf: txEntryWF(h, box(*brokerPublishQOS2Transaction, arg(0)))
+//@   at snSend.1 after let afterFirst = h.snOutN
+//@   loop 0 invariant [C11] awake: state(h) == 3 && h.snConn != nil && h.state != nil && rangeindex >= -1 && rangeindex < len(old(h.pktBuffer))
+//@   loop 0 invariant [C11] delivered_count: h.snOutN == s0 + rangeindex + 1 && h.mqttOutN == m0
+//@   loop 0 invariant [C11] delivered_in_order: forall n int :: s0 <= n && n < h.snOutN ==> h.snOut[n] == old(h.pktBuffer[n - s0])
+//@   loop 0 invariant [C11] buffer_same: sameSlice(h.pktBuffer, old(h.pktBuffer))
+//@   loop 0 invariant [C11] buffer_wf: bufWF(h)
+//@   loop 0 invariant [C25] rest: h.cfg != nil && h.mqttConn != nil && h.transactions != nil && storeInv(h.transactions) && topicSeq(h) && regTypes(h) &&
+//@      boundOnce(h) && connTx(h) && txWF(h)
+//@   ensures [C25] keeps_basic: h.cfg != nil && h.state != nil && h.snConn != nil && h.mqttConn != nil && h.transactions != nil && state(h) <= 3
+//@   ensures [C25] keeps_store: storeInv(h.transactions)
+//@   ensures [C25] keeps_seq: topicSeq(h)
+//@   ensures [C25] keeps_reg: regTypes(h)
+//@   ensures [C25] keeps_bound: boundOnce(h)
+//@   ensures [C25] keeps_buf: bufWF(h)
+//@   ensures [C25] keeps_conn: connTx(h)
+//@   ensures [C25] keeps_tx: txWF(h)
+//@   ensures [C07] gate: old(state(h)) == 0 && !old(legalWhenDisconnected(h, pkt)) ==> result == ErrIllegalPacketWhenDisconnected &&
+//@      h.mqttOutN == m0 && h.snOutN == s0 && state(h) == 0
+//@   ensures [C07] no_activation_by_client_packet: old(state(h)) == 0 ==> state(h) == 0
+//@   ensures [C01] publish_forwarded_once: istype(pkt, *snPkts1.Publish) && result == nil ==> h.mqttOutN == m0 + 1 &&
+//@      istype(h.mqttOut[m0], *mqPkts.PublishPacket) && sameSlice(h.mqttOut[m0].(*mqPkts.PublishPacket).Payload, pkt.(*snPkts1.Publish).Data)
+//@   ensures [C03] pubrel_relayed: istype(pkt, *snPkts1.Pubrel) && old(state(h)) != 0 ==> h.snOutN == s0 && (h.mqttOutN == m0 || h.mqttOutN == m0 + 1) &&
+//@      (result == nil ==> h.mqttOutN == m0 + 1) &&
+//@      (h.mqttOutN == m0 + 1 ==> istype(h.mqttOut[m0], *mqPkts.PubrelPacket) && h.mqttOut[m0].(*mqPkts.PubrelPacket).MessageID == pkt.(*snPkts1.Pubrel).messageID)
+//@   ensures [C03] pingreq_relayed: istype(pkt, *snPkts1.Pingreq) && (old(state(h)) == 1 || old(state(h)) == 3) ==> h.snOutN == s0 &&
+//@      (result == nil ==> h.mqttOutN == m0 + 1 && istype(h.mqttOut[m0], *mqPkts.PingreqPacket))
+//@   ensures [C03,C14] plain_disconnect_relayed: istype(pkt, *snPkts1.Disconnect) && pkt.(*snPkts1.Disconnect).Duration == 0 ==>
+//@      state(h) == 0 && result != nil && (h.mqttOutN == m0 || (h.mqttOutN == m0 + 1 && istype(h.mqttOut[m0], *mqPkts.DisconnectPacket)))
+//@   ensures [C14] disconnect_only_for_plain_disconnect: (h.mqttOutN == m0 || h.mqttOutN == m0 + 1) &&
+//@      (h.mqttOutN == m0 + 1 && istype(h.mqttOut[m0], *mqPkts.DisconnectPacket) ==>
+//@         istype(pkt, *snPkts1.Disconnect) && pkt.(*snPkts1.Disconnect).Duration == 0)
+//@   ensures [C11] wakeup_delivers_then_sleeps: istype(pkt, *snPkts1.Pingreq) && old(state(h)) == 2 && result == nil ==>
+//@      h.mqttOutN == m0 && h.snOutN == s0 + old(len(h.pktBuffer)) + 1 && istype(h.snOut[s0 + old(len(h.pktBuffer))], *snPkts1.Pingresp) &&
+//@      state(h) == 2 && len(h.pktBuffer) == 0
+//@   ensures [C11] wakeup_in_order: istype(pkt, *snPkts1.Pingreq) && old(state(h)) == 2 && result == nil ==>
+//@      (forall n int :: s0 <= n && n < s0 + old(len(h.pktBuffer)) ==> h.snOut[n] == old(h.pktBuffer[n - s0]))
+//@   ensures [C11] goes_to_sleep: istype(pkt, *snPkts1.Disconnect) && pkt.(*snPkts1.Disconnect).Duration != 0 && old(state(h)) != 0 && result == nil ==>
+//@      state(h) == 2 && h.mqttOutN == m0
+//@   ensures [C04] register_answered: istype(pkt, *snPkts1.Register) && old(state(h)) != 0 && old(state(h)) != 2 && result == nil ==> h.mqttOutN == m0 &&
+//@      h.snOutN == s0 + 1 && istype(h.snOut[s0], *snPkts1.Regack) && h.snOut[s0].(*snPkts1.Regack).messageID == pkt.(*snPkts1.Register).messageID
+//@   ensures [C04] register_accepted_binds: istype(pkt, *snPkts1.Register) && h.snOutN == s0 + 1 && istype(h.snOut[s0], *snPkts1.Regack) &&
+//@      h.snOut[s0].(*snPkts1.Regack).ReturnCode == 0 ==>
+//@      1 <= h.snOut[s0].(*snPkts1.Regack).TopicID && h.snOut[s0].(*snPkts1.Regack).TopicID <= 0xFFFE &&
+//@      smGet(h.registeredTopics, box(uint16, h.snOut[s0].(*snPkts1.Regack).TopicID)) == box(string, pkt.(*snPkts1.Register).TopicName)
+//@   ensures [C04] never_rebinds: forall k iface :: old(k in h.registeredTopics) ==> (k in h.registeredTopics) &&
+//@      smGet(h.registeredTopics, k) == old(smGet(h.registeredTopics, k))
